@@ -2,7 +2,8 @@
    Statements only.  The machine is Model/Conc.v; [run_final]/[run_trace] project the result of
    [run_sched]; [run_events], [stack_event], [serial_of_picks], [pm_code], [mshape], [targets],
    [exposed] are defined in Proofs/ConcP.v, the witnesses in Proofs/C20P.v. *)
-From LC Require Import Lib.Bytes Lib.Lex Model.Layers Model.Conc Cases.C20 Proofs.ConcP Proofs.C20P.
+From LC Require Import Lib.Bytes Lib.Lex Model.FsTree Model.Layers Model.Conc Cases.C20 Proofs.ConcP Proofs.C20P
+  Proofs.C20LaterP.
 
 (* (a) the property is false: known finding 1 (two stacked mounts) ... *)
 Theorem C20_refuted_1 : C20.wf witness1 = true /\ C20.kf witness1 = 1%N /\
@@ -92,3 +93,51 @@ Theorem C20_holds : forall c, C20.wf c = true -> C20.kf c = 0%N ->
   C20.spec c (C20.o_final (C20.model c)) = true.
 Proof. exact C20_holds_proof. Qed.
 Print Assumptions C20_holds.
+
+(* (f) "... so one later umount fully unmounts the layer".  [later_umount_all] /
+   [later_umount_layer] (Model/Conc.v) are the later, undisturbed umount on a freshly read table:
+   its mount lines (all of them / those at or below the build directory) deepest first, one
+   umount(2) each, the first failure ends the command.  For every table without a stacked
+   mountpoint nothing is left ... *)
+Theorem C20_later_umount_all_empties : forall k, has_dup k = false -> later_umount_all k = [].
+Proof. exact later_umount_all_empties. Qed.
+Print Assumptions C20_later_umount_all_empties.
+
+(* ... the umount of one layer leaves nothing at or below its build directory and does not touch
+   (or reorder) any other entry ... *)
+Theorem C20_later_umount_layer_clears : forall bld k, has_dup k = false ->
+  filter (at_or_below bld) (later_umount_layer bld k) = [] /\
+  filter (fun q => negb (at_or_below bld q)) (later_umount_layer bld k) = filter (fun q => negb (at_or_below bld q)) k.
+Proof. exact later_umount_layer_clears. Qed.
+Print Assumptions C20_later_umount_layer_clears.
+
+(* ... and the clause [later_ok] of the case predicate holds of the machine's later umount *)
+Theorem C20_later_ok_model : forall k, C20.later_ok k (later_umount_all k) = true.
+Proof. exact later_ok_model. Qed.
+Print Assumptions C20_later_ok_model.
+
+(* The hypothesis [has_dup k = false] is not used: the command lists EVERY mount line (a stacked
+   mountpoint twice, fs.Mounts.GetMountAndSubmounts), so both mounts of a stacked mountpoint are
+   removed as well.  The same two statements for all tables: *)
+Theorem C20_later_umount_all_empties_any : forall k, later_umount_all k = [].
+Proof. exact later_umount_all_empties_any. Qed.
+Print Assumptions C20_later_umount_all_empties_any.
+
+Theorem C20_later_umount_layer_clears_any : forall bld k,
+  filter (at_or_below bld) (later_umount_layer bld k) = [] /\
+  filter (fun q => negb (at_or_below bld q)) (later_umount_layer bld k) = filter (fun q => negb (at_or_below bld q)) k.
+Proof. exact later_umount_layer_clears_any. Qed.
+Print Assumptions C20_later_umount_layer_clears_any.
+
+(* So "a stacked mountpoint survives the later umount" is false of this machine (witness: the
+   stacked final table of the known-finding run witness1) ... *)
+Theorem C20_later_stacked_also_cleared : exists k, has_dup k = true /\ later_umount_all k = [].
+Proof. exact stacked_also_cleared. Qed.
+Print Assumptions C20_later_stacked_also_cleared.
+
+(* ... what absence of stacking decides is whether ONE umount(2) per distinct mountpoint
+   ([umount_once_each], Proofs/C20LaterP.v: the same sequence over the table with one line kept
+   per mountpoint) suffices: it does exactly when no mountpoint is stacked *)
+Theorem C20_later_once_each_iff : forall k, umount_once_each k = [] <-> has_dup k = false.
+Proof. exact once_each_iff. Qed.
+Print Assumptions C20_later_once_each_iff.
